@@ -207,6 +207,10 @@ func executeCluster(sc CScript, rep *kit.Report) error {
 			if err := n.cl.Close(); err != nil {
 				rep.Class("close-error")
 			}
+			// the process is gone once Close has returned: the cluster store flushes from
+			// untracked goroutines (x/kv.Subscriber.Flush), and one of the finished run that is
+			// scheduled late must not write into the store the next run has already opened
+			n.kv.dead.Store(true)
 			n.cl = nil
 			if os.Getenv("VERIF_C12_DEBUG") != "" {
 				var st store.State
